@@ -4,8 +4,9 @@ tied to the code by state comparison + one-sided measurements (stage C) and by t
 import base64, struct
 
 ID = 'C03'
-GENERATORS = ['gen_font']            # Model/Font.v (reused for glyphs_from_u8_data) needs Gen/FontConsts.v
-COQ_TARGETS = ['Props/C03.vo', 'Run/RunC03.vo']
+GENERATORS = ['gen_font',            # Model/Font.v (reused for glyphs_from_u8_data) needs Gen/FontConsts.v
+              'gen_codepage', 'gen_formats']   # extension (e): the loader models of C05 / C02 (Model/C05*.v, Model/C02Loaders.v) need Gen/Codepage.v, Gen/Formats.v
+COQ_TARGETS = ['Props/C03.vo', 'Run/RunC03.vo', 'Run/RunC03L.vo']
 PROPS_MODULE = 'Props.C03'
 THEOREMS = ['cost_bound', 'cost_bound_sp', 'prim_ticks_bound', 'ticks_bound_scroll', 'tick_version_same_state', 'fixed_arms_only', 'sp_arms_only',
             'rep_linear', 'rep_refuted', 'hexmacro_refuted', 'macro_recursion_refuted', 'sixel_repeat_linear', 'sixel_raster_refuted',
@@ -17,7 +18,9 @@ THEOREMS = ['cost_bound', 'cost_bound_sp', 'prim_ticks_bound', 'ticks_bound_scro
             # extension (c): hex-macro repeat groups, macro replay
             'hexmacro_bound', 'hexmacro_bound_cond', 'hexmacro_linear', 'macro_replay_bound', 'macro_invokes_half', 'macro_table_ok',
             # extension (d): sixel decoder
-            'sixel_ticks_bound', 'sixel_alloc_bound', 'sixel_image_bound']
+            'sixel_ticks_bound', 'sixel_alloc_bound', 'sixel_image_bound',
+            # extension (e): binary loaders
+            'load_ticks_bound_pair', 'load_ticks_bound_xbc', 'load_ticks_bound_tnd', 'load_ticks_bound_idf']
 SWEEP_LEMMAS = []
 TRUSTED = ['Coq 8.16.1 kernel + vm_compute (model evaluation in stage C); no axioms (Print Assumptions: closed)',
            'Model/Cost.v re-states the loops of Model/TermCore.v / AnsiTok.v with counters (tick_version_same_state: same state); the arms changed by the '
@@ -56,7 +59,7 @@ RULE = ('stage S: the complete control-function table of the quantifier: every C
         '(+ random (final, intermediate) pairs, parameters up to 2^31-1, optional probe suffix): error count, caret, buffer/layer/terminal size, number of rows, margins, mode flags, '
         'tab stops, every row length, content hash must be equal after the entry and after the probe, so a sequence the model rejects must be an error without effect in the code. '
         'non-trivial = the sequence ran a loop at least twice or changed the line table')
-MODEL_IMPORTS = 'From IE Require Import Run.RunC03.\nLocal Open Scope Z_scope.'
+MODEL_IMPORTS = 'From IE Require Import Run.RunC03 Run.RunC03L.\nLocal Open Scope Z_scope.'
 
 E = b'\x1b'
 BIG = [65536, 1000000, 2147483647]
@@ -630,6 +633,48 @@ def sixel_payloads(ctx):
         out.append(bytes(b))
     return out
 
+def loader_files(ctx):
+    """binary files WITHOUT a SAUCE record for the loader comparison: (ext, fmt code, file, tick expression, info)"""
+    rng = ctx.rng
+    out = []
+    def rb(n): return bytes(rng.randrange(256) for _ in range(n))
+    def pairs(n): return bytes(rng.choice([32, 65, 66, 0, 1, 219, 255]) if i % 2 == 0 else rng.randrange(256) for i in range(n))
+    q = ctx.n(1, 4)
+    for _ in range(6 * q):
+        d = pairs(rng.choice([0, 1, 2, 3, 160, 319, 320, 322, 700, rng.randint(0, 900)]))
+        out.append(('bin', 0, d, 'run_ticks_pair %s' % zl(d), {'w': 160, 'body': len(d), 'base': 160 * 25}))
+    for _ in range(2 * q):
+        body = pairs(rng.choice([0, 1, 2, 159, 160, 161, rng.randint(0, 500)]))
+        d = b'\x01' + bytes(rng.randrange(64) for _ in range(192)) + rb(4096) + body
+        out.append(('adf', 1, d, 'run_ticks_pair %s' % zl(body), {'w': 80, 'body': len(body), 'base': 0}))
+    for _ in range(8 * q):
+        w = rng.choice([1, 2, 3, 80, 80, 300, 4096, 0, 4097]); h = rng.choice([0, 1, 2, 25, 1000, 65535]); fs = rng.choice([0, 8, 16, 32, 33])
+        flags = rng.choice([0, 0, 4, 4, 4, 8, 12, 16, 20])
+        comp = bool(flags & 4)
+        body = rb(rng.choice([0, 1, 2, 3, 40, rng.randint(0, 120)])) if comp else pairs(rng.choice([0, 1, 2, 7, 2 * max(1, w) if w < 400 else 50, rng.randint(0, 300)]))
+        d = b'XBIN\x1a' + struct.pack('<HHBB', w, h, fs, flags) + body
+        out.append(('xb', 2, d, ('run_ticks_xbc %d %s' % (w, zl(body))) if comp else 'run_ticks_pair %s' % zl(body), {'w': w, 'body': len(body), 'base': 0, 'comp': comp}))
+    for _ in range(6 * q):
+        body = bytearray()
+        for _ in range(rng.randint(0, 30)):
+            r = rng.random()
+            if r < 0.2: body += b'\x01' + struct.pack('>ii', rng.choice([0, 1, 24, 25, 300, 1200]), rng.choice([0, 1, 40, 79, 79, 80]))
+            elif r < 0.5: body += bytes([rng.choice([2, 4, 6]), rng.choice(b'ABC')]) + rb(4) + (rb(4) if rng.random() < 0.5 else b'')
+            else: body += bytes([rng.choice(b'ABCDEFG \x00\x07\xff')])
+        if rng.random() < 0.3: body = body[:max(0, len(body) - rng.randint(1, 5))]
+        d = b'\x18TUNDRA24' + bytes(body)
+        out.append(('tnd', 3, d, 'run_ticks_tnd %s' % zl(bytes(body)), {'w': 80, 'body': len(body), 'base': 25}))
+    for _ in range(3 * q):
+        x1 = rng.choice([0, 0, 1, 5]); x2 = rng.choice([79, 79, 10, 0, 200]); y1 = rng.choice([0, 0, 3]); y2 = rng.choice([24, 0, 100])
+        area = bytearray()
+        for _ in range(rng.randint(0, 40)):
+            if rng.random() < 0.25: area += b'\x01\x00' + struct.pack('<H', rng.choice([0, 1, 2, 5, 80, 500])) + bytes([rng.choice(b'AB\x01'), rng.randrange(256)])
+            else: area += bytes([rng.choice(b'ABC \x01\x02'), rng.randrange(1, 256)])
+        if rng.random() < 0.3: area += rb(rng.randint(1, 3))
+        d = b'\x041.4' + struct.pack('<HHHH', x1, y1, x2, y2) + bytes(area) + rb(4096) + bytes(rng.randrange(64) for _ in range(48))
+        out.append(('idf', 4, d, 'run_ticks_idf %d %d %d %s' % (x1, x2, y1, zl(bytes(area))), {'w': x2 - x1 + 1, 'body': len(area), 'base': 25, 'y1': y1}))
+    return out
+
 def macro_nest_cases(ctx):
     """(definitions, top id, depth): macro 1 is text, macro k+1 replays macro k several times (hex definitions, printable filler)"""
     rng = ctx.rng
@@ -744,14 +789,17 @@ def correspondence(ctx):
     sixels = sixel_payloads(ctx)
     sixel_cases = ['c03sixel %s' % hx(b) for b in sixels]
     sixel_exprs = ['run_sixel_cost %s' % zl(b) for b in sixels]
-    ext_cases = hex_cases2 + nest_cases + sixel_cases
+    files = loader_files(ctx)
+    load_cases = ['load %s %s' % (ext, hx(d)) for ext, fmt, d, tk_e, info in files]
+    load_exprs = ['run_load_shape %d %s' % (fmt, zl(d)) for ext, fmt, d, tk_e, info in files] + [tk_e for ext, fmt, d, tk_e, info in files]
+    ext_cases = hex_cases2 + nest_cases + sixel_cases + load_cases
     impl = ctx.impl(cases + hex_cases + glyph_cases + calib + ext_cases + st_cases, per_case_timeout=5)
-    model = ctx.model(MODEL_IMPORTS, exprs + exprs_old + extra_exprs + nest_exprs + sixel_exprs + st_exprs, timeout=900)
+    model = ctx.model(MODEL_IMPORTS, exprs + exprs_old + extra_exprs + nest_exprs + sixel_exprs + load_exprs + st_exprs, timeout=900)
     impl_st = impl[len(impl) - len(st_cases):]; impl = impl[:len(impl) - len(st_cases)]
     impl_ext = impl[len(impl) - len(ext_cases):]; impl = impl[:len(impl) - len(ext_cases)]
     model_st = model[len(model) - len(st_exprs):]
-    model_sixel = model[len(model) - len(st_exprs) - len(sixel_exprs):len(model) - len(st_exprs)]
-    model_nest = model[len(model) - len(st_exprs) - len(sixel_exprs) - len(nest_exprs):len(model) - len(st_exprs) - len(sixel_exprs)]
+    e3 = len(model) - len(st_exprs); e2 = e3 - len(load_exprs); e1 = e2 - len(sixel_exprs); e0 = e1 - len(nest_exprs)
+    model_load = model[e2:e3]; model_sixel = model[e1:e2]; model_nest = model[e0:e1]
     tref = min([r[1][0] for r in impl[-3:] if r and r[0] == 'ok'] or [20000])
     per_tick = max(0.05, tref / 20000.0)          # microseconds per printed character in this run
     dis = []; nontriv = set(); ratios = []; outliers = 0; dist = {}; bound_margin = []
@@ -862,6 +910,36 @@ def correspondence(ctx):
         if v[0] > 50 * per_tick * (it + nbytes) + 50000 and v[0] > 5_000_000:
             dis.append({'case': c, 'impl': v[0], 'model': m, 'what': 'sixel decode time beyond the 5 s limit while the model counts %d iterations' % it}); continue
         if nbytes > 0: nontriv.add(c)
+        dist['extension: sixel images compared'] = dist.get('extension: sixel images compared', 0) + 1
+    # extension (e): binary loaders: accept / reject, width height rows cells of the loaded buffer; counters within load_ticks_bound_*; cells within the bound
+    for j, (ext, fmt, d_, tk_e, info) in enumerate(files):
+        m = model_load[j]; mt = model_load[len(files) + j]; r = impl_ext[len(hexs) + len(nest) + len(sixels) + j]; c = load_cases[j]; ext_n += 1
+        if m is None or mt is None:
+            dis.append({'case': c[:300], 'impl': r, 'model': [m, mt], 'what': 'loader model evaluation failed'}); continue
+        if m[0] == 2:
+            if not (r and r[0] == 'panic'): dis.append({'case': c[:300], 'impl': r, 'model': m, 'what': 'the loader model panics, the loader does not'})
+            continue
+        if r is None or r[0] != 'ok':
+            dis.append({'case': c[:300], 'impl': r, 'model': m, 'what': 'the loader did not return'}); continue
+        v = r[1]
+        if (m[0] == 0) != (v[4] == 1):
+            dis.append({'case': c[:300], 'impl': v, 'model': m, 'what': 'file accepted / rejected differently'}); continue
+        if m[0] != 0: continue
+        if [v[1], v[2], v[3], v[6]] != m[1:5]:
+            dis.append({'case': c[:300], 'impl': [v[1], v[2], v[3], v[6]], 'model': m[1:5], 'what': 'loaded buffer differs: width height rows cells'}); continue
+        body = info['body']; w_ = max(1, info['w']); tk = mt[0]; bad = None
+        if ext in ('bin', 'adf') or (ext == 'xb' and not info.get('comp')):
+            if 2 * tk > body or m[4] > max(info['base'], body // 2 + w_): bad = 'load_ticks_bound_pair'
+        elif ext == 'xb':
+            if tk > 65 * body or m[4] > tk + w_: bad = 'load_ticks_bound_xbc (cells <= counter + width is measured, not proved)'
+        elif ext == 'tnd':
+            if tk > body or mt[1] > 65534 or m[3] > max(25, mt[1] + tk + 1): bad = 'load_ticks_bound_tnd'
+        elif ext == 'idf':
+            if 2 * tk > body + 2 * mt[1]: bad = 'load_ticks_bound_idf'
+        if bad:
+            dis.append({'case': c[:300], 'impl': v[:8], 'model': [m, mt], 'what': 'the model counters exceed %s' % bad}); continue
+        if m[4] > 0: nontriv.add(c[:200])
+        dist['extension: loaded buffers compared (%s)' % ext] = dist.get('extension: loaded buffers compared (%s)' % ext, 0) + 1
     for j, g in enumerate(glyphs):
         m = model[base2 + len(hexs) + j]; r = impl[len(cases) + len(hexs) + j]
         if m is None or r is None or r[0] != 'ok':
@@ -873,7 +951,7 @@ def correspondence(ctx):
     dis = sdis + dis
     dist['state-comparison inputs (prepared state + entry + probe)'] = len(smeta)
     ratios.sort()
-    dist['extension: hex-macro length / macro replay / sixel decoder cases'] = ext_n
+    dist['extension: hex-macro length / macro replay / sixel decoder / binary loader cases'] = ext_n
     return {'cases': len(cases) + len(old) + len(hexs) + len(glyphs) + len(smeta) + ext_n, 'disagreements': dis, 'distinct_nontrivial': len(nontriv) + snontriv,
             'distribution': {'per_control_function': dist, 'calibration_us_per_tick': round(per_tick, 4),
                              'time_over_model_ratio_median': round(ratios[len(ratios) // 2], 3) if ratios else None,
